@@ -78,6 +78,9 @@ class NpProxy(types.ModuleType):
     def asarray(obj, dtype=None, *a, **k):
         if isinstance(obj, SymArr):
             return obj
+        if isinstance(obj, np.ndarray) and obj.dtype != object:
+            # keep NumPy's no-copy semantics for native arrays (aliasing with the caller's array matters)
+            return np.asarray(obj, dtype, *a, **k) if dtype is not None else np.asarray(obj, *a, **k)
         return NpProxy.array(obj, dtype, *a, **k)
 
     @staticmethod
